@@ -402,6 +402,24 @@ class C01(MergeFamProp):
             if d0.get('auto') and 'm' in d0['raw'] and not d0.get('shared') and r2.random() < 0.15:
                 d0['raw'] = dict(d0['raw'], m=list(d0['raw']['m']) + [['zz', S(r2.choice(['tail\n', 'two\nlines\n', 'x\n']))]])
                 c['style'] = ['blocklit', 0, 0]
+        # containers met again through an alias ACROSS the boundary of a tagged node (a tagged node is constructed deeply, an untagged
+        # container is filled later): anchor outside / alias inside, anchor inside / alias outside, and an alias constructed before its
+        # anchor's container (repo fix D53; seeded change S9-C01). Outside the model (shared nodes): oracle only.
+        for _ in range(max(4, n // 40)):
+            kw = r2.choice([{'prio': 1}, {'prio': -1}, {'safe': False}, {'del': False}, {'new': True}, {'del': True}])
+            cont = r2.choice([lambda: Q([S(1), S(2)]), lambda: M([('d', S(5))]), lambda: Q([S('p'), M([('k', Q([S(1)]))])]), lambda: M([('d', Q([S(5), S(6)]))])])()
+            shape = r2.choice(['in', 'in', 'out', 'early'])
+            if shape == 'in':
+                items = [('s', dict(cont, anchor='x')), ('u', M([('c', {'alias': 'x'}), ('n', S(2))], kw=kw))]
+                if r2.random() < 0.4:
+                    items.append(('v', M([('l', Q([{'alias': 'x'}, S(0)]))], kw=kw)))
+            elif shape == 'out':
+                items = [('u', M([('c', dict(cont, anchor='x'))], kw=kw)), ('s', {'alias': 'x'}), ('t', Q([{'alias': 'x'}]))]
+            else:
+                items = [('b', Q([Q([M([('c', dict(cont, anchor='x'))])])])), ('shared', {'alias': 'x'})]
+            if r2.random() < 0.5:
+                items.reverse() if shape == 'early' and False else None
+            cases.append({'docs': [{'raw': M(items), 'shared': True}], 'style': ['flow', 0, 0]})
         return cases + [gen_meta_case(rng) for _ in range(max(1, n // 2))]      # drawn after the others: those stay as they were
 
     def impl(self, case):
